@@ -136,6 +136,9 @@ def check_stream(part, text, meta, got, ended, mon, lib, npop, srv=None):
             # finding); the position of the pair says little, duplicates removed on the way shift the refill points
             reach = any(("SHIFT=" in t or "BYEASTER=" in t) for t in meta["rules"])
             kind = "not-increasing/cross-period" if reach else "not-increasing"
+            if okey(a) == okey(b):
+                # the same instant twice in a row: the stream removes that itself, across refills too; not a listed finding
+                kind = "instant-repeated"
             # a wall-clock time inside a spring-forward gap is placed like an explicit DATE-TIME (RFC 5545: offset from before
             # the gap) and so coincides with a later, existing wall-clock time; the copies are merged when they meet in one
             # cache fill and come out of order when a refill separates them (listed finding, same refill limitation)
